@@ -461,6 +461,29 @@ pub proof fn lemma_any_push(d0: Seq<Del>, d1: Seq<Del>, ts: Map<TargetId, Target
 {
     assert(d1.push(x).subrange(0, d0.len() as int) =~= d1.subrange(0, d0.len() as int));
 }
+/// [C12.state-all] the state record of every target of the resolved map has been handed to `delete_saved_env_state`
+pub open spec fn all_states_deleted(d: Seq<Del>, ts: Map<TargetId, Target>) -> bool {
+    forall|id: TargetId| ts.contains_key(id) ==> d.contains(Del::State(#[trigger] ts[id].meta()))
+}
+pub proof fn lemma_push_keeps(d: Seq<Del>, x: Del)
+    ensures d.push(x).contains(x), forall|y: Del| d.contains(y) ==> #[trigger] d.push(x).contains(y),
+{
+    assert(d.push(x)[d.len() as int] == x);
+    assert forall|y: Del| d.contains(y) implies #[trigger] d.push(x).contains(y) by {
+        let i = choose|i: int| 0 <= i < d.len() && d[i] == y;
+        assert(d.push(x)[i] == y);
+    }
+}
+pub proof fn lemma_extension_keeps(d1: Seq<Del>, d2: Seq<Del>, ts: Map<TargetId, Target>)
+    requires d1.len() <= d2.len(), d2.subrange(0, d1.len() as int) =~= d1, all_states_deleted(d1, ts),
+    ensures all_states_deleted(d2, ts),
+{
+    assert forall|id: TargetId| ts.contains_key(id) implies d2.contains(Del::State(#[trigger] ts[id].meta())) by {
+        let y = Del::State(ts[id].meta());
+        let i = choose|i: int| 0 <= i < d1.len() && d1[i] == y;
+        assert(d2.subrange(0, d1.len() as int)[i] == d2[i]);
+    }
+}
 pub proof fn lemma_any_extend(d0: Seq<Del>, d1: Seq<Del>, d2: Seq<Del>, ts: Map<TargetId, Target>, dirs: Seq<PathBuf>, named: bool, id: TargetId)
     requires all_new_any(d0, d1, ts, dirs, named), ts.contains_key(id), new_dels_allowed(d1, d2, ts[id]),
     ensures all_new_any(d0, d2, ts, dirs, named),
@@ -489,6 +512,7 @@ pub proof fn lemma_any_extend(d0: Seq<Del>, d1: Seq<Del>, d2: Seq<Del>, ts: Map<
         /*[C10.main-order,C11.stop-at-exit,C07.exit-clean]*/ final(w).steps.len() > 0 ==> final(w).steps =~= seq![Step::Run, Step::Terminate],
         /*[C07.exit]*/ final(w).run_failed ==> r is Err,
         /*[C12.scope]*/ requested_targets is None ==> final(w).steps.len() == 0,
+        /*[C12.state-all,C20.clean-through]*/ (arg_matches.has(CLEAN@) && final(w).steps.len() > 0) ==> all_states_deleted(final(w).deleted, targets@),
 //@pre
         broadcast use axiom_tid_key_model;
         broadcast use axiom_path_key_model;
@@ -502,6 +526,7 @@ pub proof fn lemma_any_extend(d0: Seq<Del>, d1: Seq<Del>, d2: Seq<Del>, ts: Map<
                         /*[C12.scope]*/ named,
                         it0.seq().unref().to_set() == targets@.values(),
                         all_new_any(old(w).deleted, w.deleted, ts, dirs, named),
+                        /*[C12.state-all,C20.clean-through]*/ forall|j: int| 0 <= j < it0.index@ ==> w.deleted.contains(Del::State((#[trigger] it0.seq().unref()[j]).meta())),
 //@loopbody
                     broadcast use axiom_tid_key_model;
                     broadcast use vstd::std_specs::hash::group_hash_axioms;
@@ -510,6 +535,7 @@ pub proof fn lemma_any_extend(d0: Seq<Del>, d1: Seq<Del>, d2: Seq<Del>, ts: Map<
                         assert(targets@.values().contains(*target));
                         let id = choose|id: TargetId| targets@.contains_key(id) && targets@[id] == *target;
                         lemma_any_push(old(w).deleted, w.deleted, ts, dirs, named, Del::State(ts[id].meta()));
+                        lemma_push_keeps(w.deleted, Del::State(ts[id].meta()));
                     }
 //@loop 1 binder=it1
                     invariant
@@ -527,6 +553,7 @@ pub proof fn lemma_any_extend(d0: Seq<Del>, d1: Seq<Del>, d2: Seq<Del>, ts: Map<
                     ts == targets@, w.steps.len() == 0, !w.run_failed, w.resolved == old(w).resolved,
                     it2.seq().unref().to_set() == targets@.values(),
                     all_new_any(old(w).deleted, w.deleted, ts, dirs, named),
+                    /*[C12.state-all,C20.clean-through]*/ named ==> all_states_deleted(w.deleted, ts),
 //@loopbody
                 broadcast use axiom_tid_key_model;
                 broadcast use vstd::std_specs::hash::group_hash_axioms;
@@ -538,6 +565,17 @@ pub proof fn lemma_any_extend(d0: Seq<Del>, d1: Seq<Del>, d2: Seq<Del>, ts: Map<
                     assert forall|d2: Seq<Del>| #[trigger] new_dels_allowed(d1, d2, *target) implies all_new_any(old(w).deleted, d2, ts, dirs, named) by {
                         lemma_any_extend(old(w).deleted, d1, d2, ts, dirs, named, id);
                     }
+                    assert forall|d2: Seq<Del>| #[trigger] new_dels_allowed(d1, d2, *target) && all_states_deleted(d1, ts) implies all_states_deleted(d2, ts) by {
+                        lemma_extension_keeps(d1, d2, ts);
+                    }
+                }
+//@after 1 `for target in targets.values()`
+                proof {
+                    // [C12.state-all] every value of the map went through the loop
+                    assert forall|id: TargetId| ts.contains_key(id) implies w.deleted.contains(Del::State(#[trigger] ts[id].meta())) by {
+                        assert(targets@.values().contains(ts[id]));
+                    }
+                    assert(all_states_deleted(w.deleted, ts));
                 }
 //@end
 
